@@ -227,41 +227,7 @@ func checkC17(c *Ctx, r *Report) {
 	r.NotDecided = []string{"aliasing of decoded slices (payloads, signatures, chunks) with the transport's receive buffer after the next command", "fields the decoder never writes at all (configuration such as IntegrityAlgorithm) are outside the rule by construction"}
 	r.Trusted = []string{"go/types, go/ssa (x/tools v0.29.0)", "engine E1 for the totality of array copies"}
 
-	entries := c.decodeEntryPoints()
-	lf := newLenflow(c, 4)
-	{
-		workers := make([]*lfEngine, len(entries))
-		sem := make(chan struct{}, runtime.NumCPU())
-		var wg sync.WaitGroup
-		for i, fn := range entries {
-			wg.Add(1)
-			sem <- struct{}{}
-			go func(i int, fn *ssa.Function) {
-				defer wg.Done()
-				defer func() { <-sem }()
-				w := newLenflowShared(c, 4, lf)
-				w.runEntry(fn, nil)
-				workers[i] = w
-			}(i, fn)
-		}
-		wg.Wait()
-		for _, w := range workers {
-			lf.merge(w)
-		}
-	}
-	k := &c17{c: c, lf: lf, cache: map[*ssa.Function]*writeSummary{}, busy: map[*ssa.Function]bool{}}
-	r.Rule("definite-assignment", "a receiver field written on some success path of a decoder is written (in full) on every success path", 28)
-	n := 0
-	for _, fn := range entries {
-		if fn.Signature.Recv() == nil {
-			continue
-		}
-		if _, isPtr := fn.Params[0].Type().Underlying().(*types.Pointer); !isPtr {
-			continue
-		}
-		n++
-		reportAssignment(c, r, k, fn)
-	}
+	n := checkDecoderAssignment(c, r, "definite-assignment", 28, nil)
 	r.Extra["decoders"] = n
 
 	checkFreshLayers(c, r, "fresh-layers")
@@ -546,4 +512,56 @@ func checkSerialisersOverwrite(c *Ctx, r *Report) {
 			r.Check(ok2, name+"|overwrites", fn.Pos(), "every claimed byte is stored on every path", whyNot)
 		}
 	}
+}
+
+
+// checkDecoderAssignment runs the definite-full-assignment rule on the layer decoders
+// whose receiver type satisfies keep (all of them when keep is nil). Shared: a response
+// that is decoded into a reused value once per page (C16) must not keep the previous
+// page's fields either.
+func checkDecoderAssignment(c *Ctx, r *Report, rule string, min int, keep func(*types.Named) bool) int {
+	var entries []*ssa.Function
+	for _, fn := range c.decodeEntryPoints() {
+		if keep != nil {
+			if rn := recvNamed(fn); rn == nil || !keep(rn) {
+				continue
+			}
+		}
+		entries = append(entries, fn)
+	}
+	lf := newLenflow(c, 4)
+	{
+		workers := make([]*lfEngine, len(entries))
+		sem := make(chan struct{}, runtime.NumCPU())
+		var wg sync.WaitGroup
+		for i, fn := range entries {
+			wg.Add(1)
+			sem <- struct{}{}
+			go func(i int, fn *ssa.Function) {
+				defer wg.Done()
+				defer func() { <-sem }()
+				w := newLenflowShared(c, 4, lf)
+				w.runEntry(fn, nil)
+				workers[i] = w
+			}(i, fn)
+		}
+		wg.Wait()
+		for _, w := range workers {
+			lf.merge(w)
+		}
+	}
+	k := &c17{c: c, lf: lf, cache: map[*ssa.Function]*writeSummary{}, busy: map[*ssa.Function]bool{}}
+	r.Rule(rule, "a receiver field written on some success path of a decoder is written (in full) on every success path", min)
+	n := 0
+	for _, fn := range entries {
+		if fn.Signature.Recv() == nil {
+			continue
+		}
+		if _, isPtr := fn.Params[0].Type().Underlying().(*types.Pointer); !isPtr {
+			continue
+		}
+		n++
+		reportAssignment(c, r, k, fn)
+	}
+	return n
 }
